@@ -51,6 +51,9 @@ static char *dec(const uint8_t *p, size_t dl) {   /* returns a static string (ro
 }
 static uint8_t *ebuf(const char *decs, size_t dl) { uint8_t *e = __real_malloc(dl ? dl : 1); enc(decs, e, dl); return e; }
 static void escribble(uint8_t *e, size_t dl) { for (size_t j = 0; j < dl; j++) e[j] ^= 0xFF; __real_free(e); }
+/* zip out-buffers start zeroed: an out-value the library leaves untouched (second half of a
+ * zip_iter_remove on one and the same array with nothing left to remove) then reads 0 */
+static uint8_t *obuf_zero(size_t dl) { uint8_t *e = __real_malloc(dl ? dl : 1); memset(e, 0, dl); return e; }
 static uint8_t *obuf_new(size_t dl) { uint8_t *e = __real_malloc(dl ? dl : 1); memset(e, 0xEE, dl); return e; }
 
 /* callback log with big values */
@@ -173,13 +176,13 @@ static void do_op(Cmd *c) {
             enum cc_stat st = cc_array_sized_zip_iter_add(&zit, e1, e2);
             escribble(e1, d1); escribble(e2, d2); o_stat(st);
         } else if (is_op(c, "zit_remove")) {
-            uint8_t *o1 = obuf_new(d1), *o2 = obuf_new(d2);
+            uint8_t *o1 = obuf_zero(d1), *o2 = obuf_zero(d2);
             enum cc_stat st = cc_array_sized_zip_iter_remove(&zit, o1, o2);
             o_stat(st); if (st == CC_OK) o(" out=%s out2=%s", dec(o1, d1), dec(o2, d2));
             __real_free(o1); __real_free(o2);
         } else if (is_op(c, "zit_replace")) {
             uint8_t *e1 = ebuf(c->npos > 0 ? c->pos[0] : "0", d1), *e2 = ebuf(c->npos > 1 ? c->pos[1] : "0", d2);
-            uint8_t *o1 = obuf_new(d1), *o2 = obuf_new(d2);
+            uint8_t *o1 = obuf_zero(d1), *o2 = obuf_zero(d2);
             enum cc_stat st = cc_array_sized_zip_iter_replace(&zit, e1, e2, o1, o2);
             escribble(e1, d1); escribble(e2, d2);
             o_stat(st); if (st == CC_OK) o(" out=%s out2=%s", dec(o1, d1), dec(o2, d2));
